@@ -280,6 +280,8 @@ def run_impl(prop, jobs_in, tag="impl", max_answers=60, timeout_ms=4000, fresh_e
     jobs = []
     for n, j in enumerate(jobs_in):
         qs = ["vsentinel_%s, vsld_enc0(ok, Ans__)." % j["id"]]
+        if j.get("setup"):
+            qs.append(j["setup"])
         extra = []
         for i, (q, tmpl) in enumerate(j["queries"]):
             for path in paths:
@@ -313,6 +315,12 @@ def run_impl(prop, jobs_in, tag="impl", max_answers=60, timeout_ms=4000, fresh_e
             out[j["id"]] = [{p: ("drop", "load error") for p in paths} for _ in range(nq)]
             continue
         rs = r["results"][1:]
+        if j.get("setup"):
+            st = observe(rs[0]) if rs else ("drop", "no setup result")
+            if st[0] != "ok" or st[1] != [A("ok")] or st[2] is not None:
+                out[j["id"]] = [{p: ("drop", "setup failed: %r" % (st,)) for p in paths} for _ in range(nq)]
+                continue
+            rs = rs[1:]
         step = 3 if j.get("log") else 1
         per = []
         pos = 0
@@ -344,10 +352,10 @@ def run_impl(prop, jobs_in, tag="impl", max_answers=60, timeout_ms=4000, fresh_e
     return out
 
 
-def check_expr(progname, q, tmpl, obs, fuel="default_fuel", cap=60):
+def check_expr(progname, q, tmpl, obs, fuel="default_fuel", cap=60, fn="check_run"):
     cq, ct = query_coq(q, tmpl)
     ball = "None" if obs[2] is None else "(Some (%s))" % tcoq(obs[2])
-    return "check_run %s %s %s %s %d%%nat %s %s %s" % (fuel, progname, cq, ct, cap, terms_coq(obs[1]), ball, terms_coq(obs[3]))
+    return "%s %s %s %s %s %d%%nat %s %s %s" % (fn, fuel, progname, cq, ct, cap, terms_coq(obs[1]), ball, terms_coq(obs[3]))
 
 
 def show_model(prop, progcoq, q, tmpl, fuel="default_fuel"):
@@ -606,7 +614,7 @@ class ProgGen:
         if r.random() < (0.45 if later else 0.7):
             body = TRUE
         else:
-            body = self.goals(vs, later, r.choice([0, 1, 2, 3, 3]), r.choice([1, 2, 2, 3, 3, 4]))
+            body = self.goals(vs, later, r.choice(getattr(self, "depth_choices", [0, 1, 2, 3, 3])), r.choice([1, 2, 2, 3, 3, 4]))
             if self.f.get("cut") and r.random() < 0.12:      # neck cut
                 body = C(",", A("!"), body)
         return (head, body)
@@ -754,12 +762,13 @@ def has_cut_in_cond(t, in_cond=False):
 
 
 def has_const_compare(t):
-    """an arithmetic comparison one of whose operands is a variable-free compound expression"""
+    """an arithmetic comparison with a compound operand (its intermediate result is placed in an argument register that may
+    still hold a live head variable: `f(X) :- 3 - 5 < X, true.`, `p(A,B) :- -(B) =:= A + 5, true.`)"""
     if t[0] != "cmp":
         return False
     if t[1] in ("<", "=<", ">", ">=", "=:=", "=\\=") and len(t[2]) == 2:
         a, b = t[2]
-        if (a[0] == "cmp" and not terms.term_vars(a)) or (b[0] == "cmp" and not terms.term_vars(b)):
+        if a[0] == "cmp" or b[0] == "cmp":
             return True
     return any(has_const_compare(x) for x in t[2])
 
@@ -788,14 +797,123 @@ def uses_char_lists(prog, q):
     return any(has_char_list(t) for t in [q] + [h for h, _ in prog] + [b for _, b in prog])
 
 
+def _non_ascii(t):
+    if t[0] == "atom": return any(ord(c) > 127 for c in t[1])
+    if t[0] == "cmp": return any(_non_ascii(x) for x in t[2])
+    return False
+
+
 def failure_key(prog, q, obs=None):
     ts = [q] + [b for _, b in prog]
+    if obs is not None and obs[0] == "ok" and uses_char_lists(prog, q) and any(_non_ascii(a) for a in obs[1]):
+        return "one-char-atom-list-compact-string-corruption"
     if any(has_cut_in_cond(t) for t in ts):
         return "cut-in-if-then-else-condition-is-not-local"
     if any(has_const_compare(t) for t in ts):
-        return "constant-arithmetic-comparison-clobbers-argument-registers"
+        return "arithmetic-comparison-with-compound-operand-clobbers-argument-registers"
     if any(has_char_list(t) for t in [q] + [h for h, _ in prog] + [b for _, b in prog]):
         return "one-char-atom-list-compact-string-corruption"
     if any(has_tail_elem_share(h) for h, _ in prog):
         return "clause-head-partial-list-with-tail-variable-as-element-loses-sharing"
     return "answers-differ"
+
+
+# ------------------------------------------------------------------ generic differential run (C12, C25)
+def run_differential(ctx, feats, nprog, check_fn="check_run", imports=IMPORTS, log=True, ok_codes=(0,), soft_codes=None,
+                     est_limits=(120, 2000), make_queries=None, key_fn=None, timeout_ms=1500, nontrivial_fn=None, depth=None):
+    """Random programs/queries with the given construct families -> implementation (both query paths) -> `check_fn` in Coq.
+    ok_codes: result codes that mean agreement; soft_codes: {code: distribution label} counted as evaluated but not as agreement
+    of the full observable.  Returns (evaluations, nontrivial set, dist, failures, tie_breaks, samples)."""
+    rng = ctx.rng
+    soft_codes = soft_codes or {5: "prefix_only_ambiguous_arith_error"}
+    jobs, meta = [], {}
+    dist = {"programs": 0, "regenerated_too_big": 0, "dropped_impl": 0, "dropped_model_nofuel": 0, "dropped_model_cyclic_or_unsupported": 0,
+            "dropped_model_many_answers": 0, "with_exception": 0, "with_answers": 0, "no_answers": 0, "with_log": 0}
+    while len(jobs) < nprog:
+        pfx = "j%d_" % len(jobs)
+        g = ProgGen(rng, pfx, feats)
+        if depth: g.depth_choices = depth
+        prog = g.program()
+        est = estimate_program(prog)
+        queries = []
+        for _ in range(3):
+            q, t = (make_queries(g, rng) if make_queries else g.query())
+            a, w = estimate_goal(q, est)
+            if a <= est_limits[0] and w <= est_limits[1]:
+                queries.append((q, t))
+        if not queries:
+            dist["regenerated_too_big"] += 1
+            continue
+        jid = "j%d" % len(jobs)
+        jobs.append({"id": jid, "text": HEADER + (LOG_DEFS if log else "") + program_text(prog), "queries": queries, "log": log})
+        meta[jid] = (prog, queries)
+    dist["programs"] = len(jobs)
+    obs = run_impl(ctx.prop, jobs, tag="impl", timeout_ms=timeout_ms)
+    defs, exprs, info = {}, [], []
+    failures, tie_breaks = [], []
+    for j in jobs:
+        prog, queries = meta[j["id"]]
+        pname = "prog_" + j["id"]
+        defs[pname] = ("program", program_coq(prog))
+        for i, (q, t) in enumerate(queries):
+            seen = {}
+            for path, o in sorted(obs[j["id"]][i].items()):
+                if o[0] == "panic":
+                    exprs.append(check_expr(pname, q, t, ("ok", [], None, []), fn=check_fn))
+                    info.append((j["id"], i, [path], o))
+                    continue
+                if o[0] != "ok":
+                    dist["dropped_impl"] += 1
+                    continue
+                k = repr(o)
+                if k in seen:
+                    info[seen[k]][2].append(path)
+                    continue
+                seen[k] = len(exprs)
+                exprs.append(check_expr(pname, q, t, o, fn=check_fn))
+                info.append((j["id"], i, [path], o))
+    codes, errs = coq_eval_codes(ctx.prop, imports, defs, exprs, chunk=250)
+    for k, e in errs:
+        tie_breaks.append({"kind": "coq-eval", "what": "model evaluation shard failed", "detail": e[-1500:]})
+    evaluations, nontrivial, by_key = 0, set(), {}
+    for c, (jid, i, paths, o) in zip(codes, info):
+        if c is None: continue
+        if c == 2: dist["dropped_model_nofuel"] += len(paths); continue
+        if c == 3: dist["dropped_model_cyclic_or_unsupported"] += len(paths); continue
+        if c == 4: dist["dropped_model_many_answers"] += len(paths); continue
+        evaluations += len(paths)
+        prog, queries = meta[jid]
+        q, t = queries[i]
+        if c in soft_codes:
+            dist[soft_codes[c]] = dist.get(soft_codes[c], 0) + len(paths)
+            if c == 5: continue
+        if o[0] == "panic":
+            key = "one-char-atom-list-compact-string-panic" if uses_char_lists(prog, q) else "panic:" + o[1][:48]
+            by_key.setdefault(key, []).append((jid, i, paths, o))
+            continue
+        if c not in ok_codes and c not in soft_codes:
+            key = (key_fn or failure_key)(prog, q, o)
+            by_key.setdefault(key, []).append((jid, i, paths, o))
+            continue
+        if o[2] is not None: dist["with_exception"] += 1
+        if o[1]: dist["with_answers"] += 1
+        else: dist["no_answers"] += 1
+        if o[3]: dist["with_log"] += 1
+        if (nontrivial_fn(prog, q, o) if nontrivial_fn else (o[1] or o[2] is not None or o[3])):
+            nontrivial.add((jid, i))
+    for key, lst in sorted(by_key.items()):
+        jid, i, paths, o = lst[0]
+        prog, queries = meta[jid]
+        q, t = queries[i]
+        spec = show_model(ctx.prop, program_coq(prog), q, t) if o[0] != "panic" else "no panic"
+        failures.append({"key": key, "count_in_this_run": len(lst), "paths": paths,
+                         "what": "answers / exception / side-effect log of the implementation differ from the reference interpreter",
+                         "input": program_text(prog) + "?- " + query_text(q, t),
+                         "impl": (o[1][:300] if o[0] == "panic" else "answers=%s ball=%s log=%s" % ([pl(a) for a in o[1]], pl(o[2]) if o[2] else None, [pl(a) for a in o[3]])),
+                         "spec": spec[:1500], "property_fails": True})
+    dist["disagreements_by_key"] = {k: len(v) for k, v in by_key.items()}
+    samples = []
+    for j in jobs[:3]:
+        prog, queries = meta[j["id"]]
+        samples.append({"program": program_text(prog), "query": query_text(*queries[0]), "impl": repr(obs[j["id"]][0].get("clause"))[:300]})
+    return evaluations, nontrivial, dist, failures, tie_breaks, samples
